@@ -17,6 +17,7 @@ Definition PPostL e ts v := exists f, post_loop tbl f e ts = Ok v.
 Definition PPrim ts v := exists f, p_primary tbl f ts = Ok v.
 Definition PArgs trail ts v := exists f, p_args tbl f trail ts = Ok v.
 Definition PPostfix ts v := exists f, p_postfix tbl f ts = Ok v.
+Definition PElems ts v := exists f, p_elems tbl f ts = Ok v.
 
 Lemma up_assign f f' ts v : p_assign tbl f ts = Ok v -> f <= f' -> p_assign tbl f' ts = Ok v.
 Proof. intros H Hle. eapply rle_ok; [apply (proj1 (mono tbl f)); exact Hle|exact H]. Qed.
@@ -33,7 +34,9 @@ Proof. intros H Hle. eapply rle_ok; [apply (proj1 (proj2 (proj2 (proj2 (proj2 (p
 Lemma up_prim f f' ts v : p_primary tbl f ts = Ok v -> f <= f' -> p_primary tbl f' ts = Ok v.
 Proof. intros H Hle. eapply rle_ok; [apply (proj1 (proj2 (proj2 (proj2 (proj2 (proj2 (proj2 (mono tbl f)))))))); exact Hle|exact H]. Qed.
 Lemma up_args f f' trail ts v : p_args tbl f trail ts = Ok v -> f <= f' -> p_args tbl f' trail ts = Ok v.
-Proof. intros H Hle. eapply rle_ok; [apply (proj2 (proj2 (proj2 (proj2 (proj2 (proj2 (proj2 (mono tbl f)))))))); exact Hle|exact H]. Qed.
+Proof. intros H Hle. eapply rle_ok; [apply (proj1 (proj2 (proj2 (proj2 (proj2 (proj2 (proj2 (proj2 (mono tbl f))))))))); exact Hle|exact H]. Qed.
+Lemma up_elems f f' ts v : p_elems tbl f ts = Ok v -> f <= f' -> p_elems tbl f' ts = Ok v.
+Proof. intros H Hle. eapply rle_ok; [apply (proj2 (proj2 (proj2 (proj2 (proj2 (proj2 (proj2 (proj2 (mono tbl f))))))))); exact Hle|exact H]. Qed.
 
 Lemma postfix_intro ts e r v : PPrim ts (e, r) -> PPostL e r v -> PPostfix ts v.
 Proof.
@@ -116,7 +119,7 @@ Qed.
 
 Definition unary_start (ts : list tok) : bool :=
   match ts with
-  | (TNot | TTilde | TInc | TDec | TOp Sub | TOp BAnd | TOp Mul) :: _ => true
+  | (TNot | TTilde | TInc | TDec | TOp Sub | TOp BAnd | TOp Mul | TAwait | TTry | TChecked) :: _ => true
   | _ => false
   end.
 
@@ -217,6 +220,36 @@ Lemma R_prim_cast r ty r' a r2 :
   cast_type r = Some (ty, r') -> PUn r' (a, r2) -> PPrim (TLP :: r) (Cast ty a, r2).
 Proof.
   intros Hc [f H]. exists (S f). rewrite p_primary_S, Hc, H. reflexivity.
+Qed.
+
+(* ---- array literals *)
+Lemma R_prim_arr r l r' : PElems r (l, r') -> PPrim (TLB :: r) (ArrLit l, r').
+Proof. intros [f H]. exists (S f). rewrite p_primary_S, H. reflexivity. Qed.
+
+Lemma R_elems_nil r : PElems (TRB :: r) ([], r).
+Proof. exists 1. rewrite p_elems_S. reflexivity. Qed.
+
+Lemma R_elems_last ts a r : (forall r0, ts <> TRB :: r0) -> PAsg ts (a, TRB :: r) -> PElems ts ([a], r).
+Proof.
+  intros Hn [f H]. exists (S f). rewrite p_elems_S.
+  destruct ts as [|t ts']; [rewrite H; reflexivity|].
+  destruct t; try (rewrite H; reflexivity). exfalso. eapply Hn; reflexivity.
+Qed.
+
+Lemma R_elems_cons ts a r l r' :
+  (forall r0, ts <> TRB :: r0) -> PAsg ts (a, TComma :: r) -> PElems r (l, r') -> PElems ts (a :: l, r').
+Proof.
+  intros Hn [f1 H1] [f2 H2]. exists (S (f1 + f2)). rewrite p_elems_S.
+  assert (E : bind (p_assign tbl (f1 + f2) ts) (fun ar =>
+        match ar with
+        | (a, TComma :: r) => bind (p_elems tbl (f1 + f2) r) (fun lr => let (l, r') := lr in Ok (a :: l, r'))
+        | (a, TRB :: r) => Ok ([a], r)
+        | _ => Err
+        end) = Ok (a :: l, r')).
+  { rewrite (up_assign _ (f1 + f2) _ _ H1) by lia. cbn [bind].
+    rewrite (up_elems _ (f1 + f2) _ _ H2) by lia. reflexivity. }
+  destruct ts as [|t ts']; [exact E|].
+  destruct t; try exact E. exfalso. eapply Hn; reflexivity.
 Qed.
 
 (* ---- argument lists *)
